@@ -1329,7 +1329,7 @@ HARNESS_API = {'nondet_u8', 'nondet_u16', 'nondet_u32', 'nondet_u64', 'nondet_i8
 
 PRELUDE_DEFINED = {'_Znwm', '_Znam', '_ZdlPv', '_ZdaPv', '_ZdlPvm', '_ZdaPvm',
                    '_ZSt20__throw_length_errorPKc', '_ZSt17__throw_bad_allocv', '_ZSt24__throw_out_of_range_fmtPKcz',
-                   '_ZSt28__throw_bad_array_new_lengthv', '_ZSt19__throw_logic_errorPKc', '_ZSt25__throw_bad_function_callv',
+                   '_ZSt28__throw_bad_array_new_lengthv', '_ZSt19__throw_logic_errorPKc', '_ZSt25__throw_bad_function_callv', '_ZSt21__glibcxx_assert_failPKciS0_S0_',
                    'memcpy', 'memmove', 'memset', 'memcmp', 'strlen', 'memchr',
                    '__cxa_atexit', 'floor', 'ceil', 'floorf', 'ceilf', 'sqrt', 'sqrtf', 'fabs', 'fabsf',
                    'malloc', 'free', 'abort', 'bcmp', '__cxa_pure_virtual', '_ZSt20__throw_out_of_rangePKc',
@@ -1553,6 +1553,7 @@ static inline void verif_memset(uint8_t* d, uint8_t c, uint64_t n) { if (n) { VE
 void _ZSt20__throw_length_errorPKc(uint8_t* m) { VERIF_UB(0, "UB: abnormal exit: throws std::length_error"); __CPROVER_assume(0); }
 void _ZSt20__throw_out_of_rangePKc(uint8_t* m) { VERIF_UB(0, "UB: abnormal exit: throws std::out_of_range"); __CPROVER_assume(0); }
 void _ZSt24__throw_out_of_range_fmtPKcz(uint8_t* m, ...) { VERIF_UB(0, "UB: abnormal exit: throws std::out_of_range"); __CPROVER_assume(0); }
+void _ZSt21__glibcxx_assert_failPKciS0_S0_(uint8_t* f, uint32_t l, uint8_t* fn, uint8_t* c) { VERIF_UB(0, "UB: libstdc++ assertion failed (_GLIBCXX_ASSERTIONS)"); __CPROVER_assume(0); }
 void _ZSt19__throw_logic_errorPKc(uint8_t* m) { VERIF_UB(0, "UB: abnormal exit: throws std::logic_error"); __CPROVER_assume(0); }
 void _ZSt17__throw_bad_allocv(void) { VERIF_UB(0, "UB: abnormal exit: throws std::bad_alloc"); __CPROVER_assume(0); }
 void _ZSt28__throw_bad_array_new_lengthv(void) { VERIF_UB(0, "UB: abnormal exit: throws bad_array_new_length"); __CPROVER_assume(0); }
